@@ -1,56 +1,56 @@
 import Exetera.Model.FilterIndex
 import Exetera.Spec.FilterIndex
-/-! Facts about the offsets/bytes storage of an indexed string column, and the two per-entry steps of the kernels. -/
+/-! Facts about the offsetsF/bytes storage of an indexed string column, and the two per-entry steps of the kernels. -/
 namespace Exetera.FilterIndex
 open Exetera Exetera.Spec
 
 theorem normIdx_eq_wrapIdx : normIdx = Spec.wrapIdx := rfl
 
-theorem offsetsFrom_length {α} (s : Nat) (es : List (List α)) : (offsetsFrom s es).length = es.length + 1 := by
+theorem offsetsFrom_length {α} (s : Nat) (es : List (List α)) : (offsetsFromF s es).length = es.length + 1 := by
   induction es generalizing s with
-  | nil => simp [offsetsFrom]
-  | cons e es ih => simp [offsetsFrom, ih]
+  | nil => simp [offsetsFromF]
+  | cons e es ih => simp [offsetsFromF, ih]
 
 theorem offsetsFrom_getElem? {α} (s : Nat) (es : List (List α)) (k : Nat) (hk : k ≤ es.length) :
-    (offsetsFrom s es)[k]? = some (s + (es.take k).flatten.length) := by
+    (offsetsFromF s es)[k]? = some (s + (es.take k).flatten.length) := by
   induction es generalizing s k with
   | nil =>
     have : k = 0 := by simpa using hk
-    subst this; simp [offsetsFrom]
+    subst this; simp [offsetsFromF]
   | cons e es ih =>
     cases k with
-    | zero => simp [offsetsFrom]
+    | zero => simp [offsetsFromF]
     | succ k =>
       have hk' : k ≤ es.length := by simpa using hk
-      simp [offsetsFrom, ih (s + e.length) k hk', Nat.add_assoc]
+      simp [offsetsFromF, ih (s + e.length) k hk', Nat.add_assoc]
 
 theorem offsetsFrom_append_singleton {α} (s : Nat) (xs : List (List α)) (e : List α) :
-    offsetsFrom s (xs ++ [e]) = offsetsFrom s xs ++ [s + xs.flatten.length + e.length] := by
+    offsetsFromF s (xs ++ [e]) = offsetsFromF s xs ++ [s + xs.flatten.length + e.length] := by
   induction xs generalizing s with
-  | nil => simp [offsetsFrom]
-  | cons x xs ih => simp [offsetsFrom, ih, Nat.add_assoc]
+  | nil => simp [offsetsFromF]
+  | cons x xs ih => simp [offsetsFromF, ih, Nat.add_assoc]
 
-theorem cur_length {α} (es : List (List α)) : (offsets es).dropLast.length = es.length := by
-  simp [offsets, offsetsFrom_length]
+theorem cur_length {α} (es : List (List α)) : (offsetsF es).dropLast.length = es.length := by
+  simp [offsetsF, offsetsFrom_length]
 
-theorem nxt_length {α} (es : List (List α)) : ((offsets es).drop 1).length = es.length := by
-  simp [offsets, offsetsFrom_length]
+theorem nxt_length {α} (es : List (List α)) : ((offsetsF es).drop 1).length = es.length := by
+  simp [offsetsF, offsetsFrom_length]
 
 theorem cur_getElem? {α} (es : List (List α)) (k : Nat) (hk : k < es.length) :
-    (offsets es).dropLast[k]? = some (es.take k).flatten.length := by
+    (offsetsF es).dropLast[k]? = some (es.take k).flatten.length := by
   rw [List.getElem?_dropLast]
-  simp [offsets, offsetsFrom_length, hk, offsetsFrom_getElem? 0 es k (Nat.le_of_lt hk)]
+  simp [offsetsF, offsetsFrom_length, hk, offsetsFrom_getElem? 0 es k (Nat.le_of_lt hk)]
 
 theorem nxt_getElem? {α} (es : List (List α)) (k : Nat) (e : List α) (he : es[k]? = some e) :
-    ((offsets es).drop 1)[k]? = some ((es.take k).flatten.length + e.length) := by
+    ((offsetsF es).drop 1)[k]? = some ((es.take k).flatten.length + e.length) := by
   have hk : k < es.length := by
     rcases List.getElem?_eq_some_iff.mp he with ⟨h, _⟩; exact h
-  rw [List.getElem?_drop, offsets, offsetsFrom_getElem? 0 es (1 + k) (by omega)]
+  rw [List.getElem?_drop, offsetsF, offsetsFrom_getElem? 0 es (1 + k) (by omega)]
   have : 1 + k = k + 1 := by omega
   rw [this, List.take_add_one, he]
   simp
 
-/-- the bytes of entry `k` are the slice between its two offsets -/
+/-- the bytes of entry `k` are the slice between its two offsetsF -/
 theorem slice_flatten {α} (es : List (List α)) (k : Nat) (e : List α) (he : es[k]? = some e) :
     slice es.flatten (es.take k).flatten.length ((es.take k).flatten.length + e.length) = e ∧
     (es.take k).flatten.length + e.length ≤ es.flatten.length := by
@@ -97,36 +97,36 @@ theorem getWrapE_none {α} {xs : List α} {i : Int} (site : String)
 /-- pass 1 body: the byte length of entry `k` -/
 theorem entryLen_ok (es : List (List Nat)) (i : Int) (k : Nat) (e : List Nat)
     (hk : normIdx es.length i = some k) (he : es[k]? = some e) :
-    entryLen (offsets es).dropLast ((offsets es).drop 1) i = .ok e.length := by
+    entryLen (offsetsF es).dropLast ((offsetsF es).drop 1) i = .ok e.length := by
   have hlt := normIdx_lt hk
-  have h1 : getWrapE ((offsets es).drop 1) i "next_[i]" = .ok ((es.take k).flatten.length + e.length) :=
+  have h1 : getWrapE ((offsetsF es).drop 1) i "next_[i]" = .ok ((es.take k).flatten.length + e.length) :=
     getWrapE_ok _ (by rw [nxt_length]; exact hk) (nxt_getElem? es k e he)
-  have h2 : getWrapE (offsets es).dropLast i "cur_[i]" = .ok (es.take k).flatten.length :=
+  have h2 : getWrapE (offsetsF es).dropLast i "cur_[i]" = .ok (es.take k).flatten.length :=
     getWrapE_ok _ (by rw [cur_length]; exact hk) (cur_getElem? es k hlt)
   simp only [entryLen, h1, h2, bind, Except.bind, pure, Except.pure, Nat.le_add_right, ite_true,
     Nat.add_sub_cancel_left]
 
 theorem entryLen_oob (es : List (List Nat)) (i : Int) (hk : normIdx es.length i = none) :
-    entryLen (offsets es).dropLast ((offsets es).drop 1) i = .error (.oob "next_[i]") := by
-  have h1 : getWrapE ((offsets es).drop 1) i "next_[i]" = .error (.oob "next_[i]") :=
+    entryLen (offsetsF es).dropLast ((offsetsF es).drop 1) i = .error (.oob "next_[i]") := by
+  have h1 : getWrapE ((offsetsF es).drop 1) i "next_[i]" = .error (.oob "next_[i]") :=
     getWrapE_none _ (by rw [nxt_length]; exact hk)
   simp only [entryLen, h1, bind, Except.bind]
 
-/-- the state of pass 2 after the entries `sel` have been copied, with room for `kc` more offsets and `kt` more bytes -/
+/-- the state of pass 2 after the entries `sel` have been copied, with room for `kc` more offsetsF and `kt` more bytes -/
 def p2State (sel : List (List Nat)) (kc kt : Nat) : P2 :=
   { count := sel.length + 1, total := sel.flatten.length,
-    di := offsets sel ++ List.replicate kc 0, dv := sel.flatten ++ List.replicate kt 0 }
+    di := offsetsF sel ++ List.replicate kc 0, dv := sel.flatten ++ List.replicate kt 0 }
 
 /-- pass 2 body: entry `k` is appended to what has been copied so far; no access leaves its array -/
 theorem copyEntry_ok (es : List (List Nat)) (i : Int) (k : Nat) (e : List Nat)
     (hk : normIdx es.length i = some k) (he : es[k]? = some e)
     (sel : List (List Nat)) (kc kt : Nat) (hkc : 0 < kc) (hkt : e.length ≤ kt) :
-    copyEntry (offsets es).dropLast ((offsets es).drop 1) es.flatten i (p2State sel kc kt) =
+    copyEntry (offsetsF es).dropLast ((offsetsF es).drop 1) es.flatten i (p2State sel kc kt) =
       .ok (p2State (sel ++ [e]) (kc - 1) (kt - e.length)) := by
   have hlt := normIdx_lt hk
-  have h1 : getWrapE ((offsets es).drop 1) i "next_[i]" = .ok ((es.take k).flatten.length + e.length) :=
+  have h1 : getWrapE ((offsetsF es).drop 1) i "next_[i]" = .ok ((es.take k).flatten.length + e.length) :=
     getWrapE_ok _ (by rw [nxt_length]; exact hk) (nxt_getElem? es k e he)
-  have h2 : getWrapE (offsets es).dropLast i "cur_[i]" = .ok (es.take k).flatten.length :=
+  have h2 : getWrapE (offsetsF es).dropLast i "cur_[i]" = .ok (es.take k).flatten.length :=
     getWrapE_ok _ (by rw [cur_length]; exact hk) (cur_getElem? es k hlt)
   obtain ⟨hs, hb⟩ := slice_flatten es k e he
   have h3 : sliceE es.flatten (es.take k).flatten.length ((es.take k).flatten.length + e.length) "values[c:n]" = .ok e := by
@@ -142,13 +142,13 @@ theorem copyEntry_ok (es : List (List Nat)) (i : Int) (k : Nat) (e : List Nat)
       List.drop_of_length_le (by omega)]
     simp
   obtain ⟨kc', rfl⟩ : ∃ kc', kc = kc' + 1 := ⟨kc - 1, by omega⟩
-  have h5 : setE (offsets sel ++ List.replicate (kc' + 1) 0) (sel.length + 1) (sel.flatten.length + e.length)
-      "dest_indices[count]" = .ok (offsets (sel ++ [e]) ++ List.replicate kc' 0) := by
-    have hl : (offsets sel).length = sel.length + 1 := offsetsFrom_length 0 sel
-    have e1 : offsets (sel ++ [e]) = offsets sel ++ [sel.flatten.length + e.length] := by
-      simp only [offsets, offsetsFrom_append_singleton, Nat.zero_add]
+  have h5 : setE (offsetsF sel ++ List.replicate (kc' + 1) 0) (sel.length + 1) (sel.flatten.length + e.length)
+      "dest_indices[count]" = .ok (offsetsF (sel ++ [e]) ++ List.replicate kc' 0) := by
+    have hl : (offsetsF sel).length = sel.length + 1 := offsetsFrom_length 0 sel
+    have e1 : offsetsF (sel ++ [e]) = offsetsF sel ++ [sel.flatten.length + e.length] := by
+      simp only [offsetsF, offsetsFrom_append_singleton, Nat.zero_add]
     rw [e1]
-    generalize offsets sel = O at hl ⊢
+    generalize offsetsF sel = O at hl ⊢
     generalize sel.flatten.length + e.length = t
     unfold setE
     rw [if_pos (by simp only [List.length_append, List.length_replicate]; omega), List.set_append,
